@@ -33,7 +33,7 @@ var ownDiscipline = map[string]string{
 	"serverConn.writer": "init-only", "serverConn.reader": "init-only", "serverConn.writeStop": "init-only", "serverConn.handlerDone": "init-only",
 	"serverConn.handlerStop": "init-only", "serverConn.closer": "init-only",
 	"serverConn.pingTimer": "init-only", "serverConn.maxRequestTimer": "init-only", "serverConn.maxIdleTimer": "init-only",
-	"serverConn.br": "owner:conn", "serverConn.clientS": "owner:conn",
+	"serverConn.br": "owner:conn", "serverConn.clientS": "owner:go:(*serverConn).Serve$3",
 	"serverConn.bw":            "owner:go:(*serverConn).Serve$2",
 	"serverConn.enc":           "owner:go:(*serverConn).Serve$3",
 	"serverConn.dec":           "owner:go:(*serverConn).Serve$3",
